@@ -5,7 +5,7 @@ on the argument) or a bare distribution trace; one site is rejuvenated with a pr
 (normal / laplace / cauchy) whose arguments are computed from the current value of the site by
 a constant, random-walk or asymmetric state-dependent mapping.
 
-Oracle (scipy.stats, float64): with x the old and x' the new value of the site,
+Oracle (closed-form float64 log densities, self-tested against scipy.stats): with x the old and x' the new value of the site,
     w == log p(x', rest) + log q(x | args(x')) - log p(x, rest) - log q(x' | args(x)),
 every other site bit-identical, score(new trace) == log p(x', rest), return value consistent,
 and the returned (backward) request is again an applicable Rejuvenate move obeying the same law.
@@ -31,6 +31,23 @@ F32_EPS = 2.0**-23
 # reference model (float64, scipy)
 # ----------------------------------------------------------------------------------------
 def ref_logpdf(dist, v, params):
+    """closed forms in float64. (scipy.stats is used to self-test them at moderate arguments only:
+    scipy's laplace/cauchy logpdf is log(pdf) and loses precision where the pdf is subnormal,
+    e.g. laplace.logpdf(-1004.43, 0, 1.35) = -744.74 instead of -745.0148.)"""
+    if dist == "normal":
+        z = (v - params[0]) / params[1]
+        return -0.5 * z * z - math.log(params[1]) - 0.5 * math.log(2.0 * math.pi)
+    if dist == "laplace":
+        return -abs(v - params[0]) / params[1] - math.log(2.0 * params[1])
+    if dist == "cauchy":
+        z = (v - params[0]) / params[1]
+        return -math.log(math.pi * params[1]) - math.log1p(z * z)
+    if dist == "exponential":
+        return math.log(params[0]) - params[0] * v if v >= 0 else -math.inf
+    raise ValueError(dist)
+
+
+def scipy_logpdf(dist, v, params):
     if dist == "normal":
         return float(sps.norm.logpdf(v, loc=params[0], scale=params[1]))
     if dist == "laplace":
@@ -342,6 +359,15 @@ def _selftest():
     assert abs(ref_logpdf("cauchy", 1.0, (0.0, 1.0)) - (-math.log(2 * math.pi))) < 1e-12
     assert abs(ref_logpdf("exponential", 2.0, (1.5,)) - (math.log(1.5) - 3.0)) < 1e-12
     assert ref_map(["asym", 2.0, 1.0, 0.5, 0.25], -2.0) == (-3.0, 1.0)
+    for d in ("normal", "laplace", "cauchy"):
+        for v in (-7.5, -0.3, 0.0, 1.25, 20.0):
+            for prm in ((0.0, 1.0), (-1.5, 0.3), (2.0, 2.5)):
+                a, b = ref_logpdf(d, v, prm), scipy_logpdf(d, v, prm)
+                assert abs(a - b) <= 1e-10 * max(1.0, abs(b)), (d, v, prm, a, b)
+    for v in (0.0, 0.4, 9.0):
+        for r in (0.3, 1.0, 4.5):
+            a, b = ref_logpdf("exponential", v, (r,)), scipy_logpdf("exponential", v, (r,))
+            assert abs(a - b) <= 1e-10 * max(1.0, abs(b)), (v, r, a, b)
 
 
 def probes(ctx):
